@@ -105,6 +105,10 @@ Fenced(info, s) == [B("fenced") EXCEPT !.info = info, !.s = s]
 Indented(s) == [B("indented") EXCEPT !.s = s]
 Quote(d) == [B("quote") EXCEPT !.d = d]
 List(o, z, d) == [B("list") EXCEPT !.o = o, !.z = z, !.d = d]       \* d: one block per item
+\* nested list: d = <<first, inner a, inner b, last>> (paragraphs); o/z describe the outer list, info = "o" for an ordered inner list (tight, indented by four spaces)
+NList(o, z, io, d) == [B("nlist") EXCEPT !.o = o, !.z = z, !.info = IF io THEN "o" ELSE "u", !.d = d]
+\* a list whose first item holds two paragraphs (which makes the list loose): d = <<first, continuation, last>>
+PItem(o, d) == [B("pitem") EXCEPT !.o = o, !.d = d]
 \* table: al = one alignment per column ("l" "c" "r" "n"), hd = header cells, rows = body rows, each cell an inline list; cap = caption word or ""
 Table(al, hd, rows, cap) == [B("table") EXCEPT !.t = [al |-> al, hd |-> hd, rows |-> rows, cap |-> cap]]
 \* definition list: t.rows = groups, each group <<terms, definitions>>, both sequences of inline lists
@@ -134,6 +138,13 @@ BlockSrc(b, sp) ==
     [] b.k = "fenced"   -> Rep("`", sp.fence) \o b.info \o "\n" \o Cat([j \in 1 .. Len(b.s) |-> b.s[j].a \o "\n"]) \o Rep("`", sp.fence) \o "\n"
     [] b.k = "indented" -> Cat([j \in 1 .. Len(b.s) |-> "    " \o b.s[j].a \o "\n"])
     [] b.k = "quote"    -> Prefix(DocSrc(b.d, sp), "> ", "> ")
+    [] b.k = "nlist"    -> LET om(j) == IF b.o THEN ToString(j) \o ". " ELSE sp.bullet \o " "
+                               im(j) == IF b.info = "o" THEN ToString(j) \o ". " ELSE sp.bullet \o " " IN
+                           om(1) \o LineSrc(b.d[1].il, sp.us) \o "\n" \o (IF b.z THEN "\n" ELSE "")
+                           \o "    " \o im(1) \o LineSrc(b.d[2].il, sp.us) \o "\n" \o "    " \o im(2) \o LineSrc(b.d[3].il, sp.us) \o "\n" \o (IF b.z THEN "\n" ELSE "")
+                           \o om(2) \o LineSrc(b.d[4].il, sp.us) \o "\n"
+    [] b.k = "pitem"    -> LET om(j) == IF b.o THEN ToString(j) \o ". " ELSE sp.bullet \o " " IN
+                           om(1) \o LineSrc(b.d[1].il, sp.us) \o "\n\n    " \o LineSrc(b.d[2].il, sp.us) \o "\n\n" \o om(2) \o LineSrc(b.d[3].il, sp.us) \o "\n"
     [] b.k = "table"    -> TableSrc(b.t, sp)
     [] b.k = "deflist"  -> JoinWith([g \in 1 .. Len(b.t.rows) |->
                                  Cat([j \in 1 .. Len(b.t.rows[g][1]) |-> LineSrc(b.t.rows[g][1][j], sp.us) \o "\n"])
@@ -146,7 +157,7 @@ DocSrc(d, sp) == JoinWith([j \in 1 .. Len(d) |-> BlockSrc(d[j], sp)], "\n")
 CollectIl(il) == SelectSeq(il, LAMBDA i : i.k \in {"ref", "fn"})
 CatSeq(ss) == LET RECURSIVE C(_) C(j) == IF j > Len(ss) THEN <<>> ELSE ss[j] \o C(j + 1) IN C(1)
 CollectB(b) == CASE b.k \in {"para", "atx", "setext"} -> CollectIl(b.il)
-                 [] b.k \in {"quote", "list"} -> Collect(b.d)
+                 [] b.k \in {"quote", "list", "nlist", "pitem"} -> Collect(b.d)
                  [] b.k = "table" -> CatSeq([j \in 1 .. Len(b.t.hd) |-> CollectIl(b.t.hd[j])]) \o CatSeq([r \in 1 .. Len(b.t.rows) |-> CatSeq([j \in 1 .. Len(b.t.rows[r]) |-> CollectIl(b.t.rows[r][j])])])
                  [] b.k = "deflist" -> CatSeq([g \in 1 .. Len(b.t.rows) |-> CatSeq([j \in 1 .. Len(b.t.rows[g][1]) |-> CollectIl(b.t.rows[g][1][j])]) \o CatSeq([j \in 1 .. Len(b.t.rows[g][2]) |-> CollectIl(b.t.rows[g][2][j])])])
                  [] OTHER -> <<>>
@@ -181,6 +192,11 @@ BlockHtml(b, cx) ==
     [] b.k = "fenced"   -> "<pre><code" \o (IF b.info # "" THEN " class=\"" \o b.info \o "\"" ELSE "") \o ">" \o Cat([j \in 1 .. Len(b.s) |-> b.s[j].b \o "\n"]) \o "</code></pre>"
     [] b.k = "indented" -> "<pre><code>" \o Cat([j \in 1 .. Len(b.s) |-> b.s[j].b \o "\n"]) \o "</code></pre>"
     [] b.k = "quote"    -> "<blockquote>" \o DocHtml(b.d, cx) \o "</blockquote>"
+    [] b.k = "nlist"    -> LET ot == IF b.o THEN "ol" ELSE "ul"  it == IF b.info = "o" THEN "ol" ELSE "ul" IN
+                           "<" \o ot \o "><li>" \o Item(b.d[1], b.z, cx) \o "<" \o it \o "><li>" \o LineHtml(b.d[2].il, cx) \o "</li><li>" \o LineHtml(b.d[3].il, cx) \o "</li></" \o it \o "></li><li>"
+                           \o Item(b.d[4], b.z, cx) \o "</li></" \o ot \o ">"
+    [] b.k = "pitem"    -> LET ot == IF b.o THEN "ol" ELSE "ul" IN
+                           "<" \o ot \o "><li>" \o BlockHtml(b.d[1], cx) \o BlockHtml(b.d[2], cx) \o "</li><li>" \o BlockHtml(b.d[3], cx) \o "</li></" \o ot \o ">"
     [] b.k = "table"    -> TableHtml(b.t, cx)
     [] b.k = "deflist"  -> "<dl>" \o Cat([g \in 1 .. Len(b.t.rows) |->
                                  Cat([j \in 1 .. Len(b.t.rows[g][1]) |-> "<dt>" \o LineHtml(b.t.rows[g][1][j], cx) \o "</dt>"])
@@ -228,6 +244,8 @@ SomeDl == DefList(<<Grp(<<T1("alpha")>>, << <<T("x1"), T("beta")>> >>)>>)
 Containers == {Quote(<<c>>) : c \in Simple \cup MmdLeaf \cup {SomeDl}} \cup {Quote(<<c1, c2>>) : c1 \in Leaf, c2 \in Simple}
               \cup {List(o, z, <<a, b>>) : o \in BOOLEAN, z \in BOOLEAN, a \in Leaf \cup MmdLeaf \cup NestLeaf, b \in Leaf} \cup {List(o, FALSE, <<a>>) : o \in BOOLEAN, a \in Leaf}
               \cup {Quote(<<List(FALSE, FALSE, <<a, b>>)>>) : a \in Leaf, b \in Leaf \cup MmdLeaf}
+              \cup {NList(o, z, io, <<a, b, Para(<<T("x1")>>), Para(<<T("beta")>>)>>) : o \in BOOLEAN, z \in BOOLEAN, io \in BOOLEAN, a \in Leaf, b \in Leaf \cup NestLeaf}
+              \cup {PItem(o, <<a, b, Para(<<T("x1")>>)>>) : o \in BOOLEAN, a \in Leaf, b \in Leaf \cup MmdLeaf}
 Independent == Simple \cup {Quote(<<c>>) : c \in Leaf} \cup {SomeTable, SomeDl}        \* blocks that do not refer to one another: the compositionality family
 \* documents whose notes and references interleave: numbering by first reference, definitions shared
 NoteDocs == {<<Para(<<a>>), b, Para(<<c>>)>> : a \in {FnB, RefB}, b \in {Hr, SomeTable, Quote(<<Para(<<FnA>>)>>)}, c \in {FnA, FnB, RefA, RefB}}
@@ -241,6 +259,7 @@ SpFor(b) == CASE b.k = "para" -> {[DefaultSp EXCEPT !.us = u] : u \in BOOLEAN}
               [] b.k = "hr" -> {[DefaultSp EXCEPT !.hr = h] : h \in {1, 2, 3}}
               [] b.k = "fenced" -> {[DefaultSp EXCEPT !.fence = f] : f \in {3, 4, 5}}
               [] b.k = "list" -> {[DefaultSp EXCEPT !.bullet = bl, !.lead = ld] : bl \in {"*", "+", "-"}, ld \in {0, 1, 3}}
+              [] b.k \in {"nlist", "pitem"} -> {[DefaultSp EXCEPT !.bullet = bl] : bl \in {"*", "-"}}
               [] b.k = "table" -> {[DefaultSp EXCEPT !.pipes = pp] : pp \in BOOLEAN}
               [] OTHER -> {DefaultSp}
 VARIABLE g
@@ -251,7 +270,7 @@ Init == CASE Family = "single"    -> g \in UNION {{[d |-> <<b>>, sp |-> s] : s \
 Next == Family = "random" /\ Len(g.d) < MaxBlocks /\ g' = [g EXCEPT !.d = Append(@, RandomElement(Simple \cup Containers \cup Singles))]
 \* adjacent blocks that would merge or re-interpret each other are outside the unambiguous subset
 Unambiguous(d) == \A i \in 1 .. (Len(d) - 1) :
-   /\ ~(d[i].k = "list" /\ d[i + 1].k \in {"list", "indented"})                 \* a list followed by a list / indented text continues the list
+   /\ ~(d[i].k \in {"list", "nlist", "pitem"} /\ d[i + 1].k \in {"list", "nlist", "pitem", "indented"})                 \* a list followed by a list / indented text continues the list
    /\ ~(d[i].k = "indented" /\ d[i + 1].k = "indented")                         \* two indented blocks are one
    /\ ~(d[i].k = "quote" /\ d[i + 1].k = "quote")
    /\ ~(d[i].k = "para" /\ d[i + 1].k = "hr")                                   \* "---" under a paragraph is a Setext underline
